@@ -26,6 +26,8 @@ MUTANTS = [
     ('tag filter on truthiness', 'Core.py', 'if tag is not None:\n            matching_agents = [a for a in matching_agents if a.tag == tag]',
      'if tag:\n            matching_agents = [a for a in matching_agents if a.tag == tag]', 'Core.Environment.get_agents',
      'get_agents_post'),
+    ('random pick refuses on a completed model', 'Core.py', 'if len(valid_agents) == 0:',
+     'if not self.model or len(valid_agents) == 0:', 'Core.Environment.get_random_agent', 'random_pick_post'),
     ('deregister keeps empty pool', 'Core.py', 'if len(self.component_pools[type(component)]) == 0:',
      'if len(self.component_pools[type(component)]) < 0:', 'Core.SystemManager.deregister_component', 'deregister'),
 ]
